@@ -206,6 +206,14 @@ func c16FmtCfg(c *Case) {
 func (c16) Gen(rng *rand.Rand, tier string, idx int) Case {
 	var c Case
 	mode := []string{"enc", "tbl", "sql", "tbl", "sql", "sqlagg"}[idx%6]
+	if tier == "thorough" && idx%25 == 24 {
+		// free-running search (DESIGN §3.5): a concurrent updater against monotone reads; thorough tier only
+		var c Case
+		c.Cfg = [][]string{{"mode", "conc"}, {"keys", "1"}}
+		c.Ops = [][]string{{"conc", strconv.Itoa(50 + rng.Intn(200))}}
+		c.Stat = []string{"mode-conc"}
+		return c
+	}
 	arity := []int{1, 1, 2, 2, 3}[rng.Intn(5)]
 	c.Cfg = append(c.Cfg, []string{"mode", mode}, []string{"keys", strconv.Itoa(arity)})
 	pool := c16Pool(rng, arity, 3+rng.Intn(3))
@@ -529,9 +537,61 @@ func c16SQLAgg(c Case, arity int) [][][]string {
 	return out
 }
 
+// c16Conc: one goroutine upserts pid = 1…n for one key while this goroutine keeps joining a row with that key.
+// Every Upsert returns before the next begins, so under every schedule the pids read are non-decreasing, and the
+// read after the updater has finished sees n. The verdict does not depend on timing.
+func c16Conc(n int) [][]string {
+	s := streamsql.New(streamsql.WithDiscardLog())
+	defer s.Stop()
+	if err := s.Execute("SELECT id, m.pid AS pid FROM stream LEFT JOIN meta m ON k0 = m.t0"); err != nil {
+		return [][]string{{"exec-error", hx(err.Error())}}
+	}
+	if _, err := s.RegisterTable("meta", nil); err != nil {
+		return [][]string{{"register-error", hx(err.Error())}}
+	}
+	read := func() int {
+		res, err := s.EmitSync(map[string]interface{}{"id": 1, "k0": "k"})
+		if err != nil || res == nil {
+			return -1
+		}
+		if v, ok := res["pid"].(int); ok {
+			return v
+		}
+		return 0
+	}
+	done := make(chan struct{})
+	go func() {
+		defer close(done)
+		for p := 1; p <= n; p++ {
+			_ = s.UpsertTable("meta", map[string]interface{}{"t0": "k", "pid": p})
+		}
+	}()
+	mono, last := true, 0
+	for running := true; running; {
+		select {
+		case <-done:
+			running = false
+		default:
+		}
+		v := read()
+		if v < last {
+			mono = false
+		}
+		last = v
+	}
+	return [][]string{{"mono", btok(mono)}, {"final", strconv.Itoa(read())}}
+}
+
 func (c16) Exec(c Case) [][][]string {
 	arity, _ := strconv.Atoi(c04CfgVal(c, "keys", "1"))
 	switch c04CfgVal(c, "mode", "enc") {
+	case "conc":
+		var out [][][]string
+		for _, op := range c.Ops {
+			n, _ := strconv.Atoi(op[1])
+			out = append(out, c16Conc(n))
+		}
+		return out
 	case "tbl":
 		return c16Tbl(c, arity)
 	case "sql":
